@@ -604,6 +604,13 @@ func encryptMain(args []string) {
 					if got != nil {
 						oracle("C09 Process returned an error together with an event")
 					}
+					pubOp, pubSet := ov[encrypt.PublicClassification]
+					senOp, senSet := ov[encrypt.SensitiveClassification]
+					secOp, secSet := ov[encrypt.SecretClassification]
+					if senSet && senOp == encrypt.NoOperation && secSet && secOp == encrypt.NoOperation &&
+						(!pubSet || pubOp == encrypt.NoOperation) && !strings.HasPrefix(err.Error(), "PANIC") {
+						oracle("C10 with every operation overridden to none (nothing is filtered) the event is forwarded unchanged whatever it carries; Process returned an error instead: %v", err)
+					}
 				case got == e:
 					res = "same"
 				default:
